@@ -52,6 +52,7 @@ type fsess struct {
 	lastHot        bool
 	compactRanges  [][2]int // log ranges of Compact calls
 	trivialHistory bool     // set by a check whose non-triviality rule the history does not meet
+	victims        []string // keys of the directed hazard prefix still to be deleted (inline writers prefer them)
 }
 
 type fevent struct {
@@ -108,6 +109,9 @@ func (s *fsess) open() error {
 func (s *fsess) key() string {
 	// bias to a few hot keys so that overwrites and deletes of live keys are common
 	s.lastHot = false
+	if s.inCompaction && len(s.victims) > 0 && core.Pct(s.ch, "inline_victim", 40) {
+		return s.victims[s.ch.Int("victimkey", 0, len(s.victims)-1)]
+	}
 	if core.Pct(s.ch, "hot", 50) {
 		n := 4
 		if n > len(s.ukeys) {
@@ -224,6 +228,12 @@ func (s *fsess) onYield(db *pogreb.DB, point string) {
 	s.yields++
 	s.ch.Note("    yield %s", point)
 	n := s.ch.Int("inline_n", 0, s.inlineMax)
+	if s.inlineWriters > 300 {
+		// With tiny segments every inline writer seals a segment and every sealed segment
+		// gives the next compaction more yield points: the number of segments then grows
+		// geometrically until the (legitimate) limit of 32767 segments is hit. Stay far away.
+		n = 0
+	}
 	for j := 0; j < n; j++ {
 		var err error
 		switch core.Weighted(s.ch, "inline_op", s.inlineWeight) {
@@ -361,15 +371,15 @@ func (s *fsess) numSegments() int {
 	return n
 }
 
-// fillUntilRollover puts filler keys (never a victim) until the log rolls over, at most max puts.
-func (s *fsess) fillUntilRollover(victims map[string]bool, max int) error {
+// fillUntilRollover puts keys of the given set, in order and cyclically, until the log rolls
+// over, at most max puts.
+func (s *fsess) fillUntilRollover(from []string, vlens []int, max int) error {
+	if len(from) == 0 {
+		return nil
+	}
 	before := s.numSegments()
 	for i := 0; i < max; i++ {
-		k := s.ukeys[s.ch.Int("filler", 0, len(s.ukeys)-1)]
-		if victims[k] {
-			continue
-		}
-		if err := s.put(k, core.PickInt(s.ch, "filler_vlen", []int{20, 60, 120, 300})); err != nil {
+		if err := s.put(from[i%len(from)], core.PickInt(s.ch, "filler_vlen", vlens)); err != nil {
 			return err
 		}
 		if s.numSegments() > before {
@@ -380,37 +390,54 @@ func (s *fsess) fillUntilRollover(victims map[string]bool, max int) error {
 }
 
 // hazardPrefill is a directed prefix aimed at the delete-marker hazard of compaction: victim
-// keys are put into an old segment that stays little fragmented; a newer segment receives their
-// overwrites and delete records together with churn that fragments it (so that it becomes
-// eligible for compaction on its own merits); optionally the process is killed and recovered
-// before the compaction (the segment metadata compaction relies on is then what recovery
-// rebuilt). Whether a delete marker may be dropped depends on the older segment being
-// compacted along - a stale put that survives resurrects the key at the next recovery.
+// keys are put into an old segment that stays (almost) free of garbage, so that it is not
+// picked for compaction on its own merits; newer segments receive the victims' overwrites and
+// delete records together with churn on *other* keys that fragments them (they become eligible
+// on their own merits); optionally the process is killed and recovered before the compaction
+// (the segment metadata compaction relies on is then what recovery rebuilt). Whether a delete
+// marker may be dropped depends on the older segment being compacted along - a stale put that
+// survives resurrects the key at the next recovery.
+// Variant "late delete": the victims are neither overwritten nor deleted in the prefix (no
+// delete record exists when Compact picks); two fragmented newer segments are built, the second
+// one still current; the writers that run inline during the compaction prefer the victims.
 func (s *fsess) hazardPrefill() error {
 	s.ch.Note("-- directed prefix: delete-marker hazard")
-	victims := map[string]bool{}
+	off := s.ch.Int("hazard_offset", 0, len(s.ukeys)-1)
+	rot := append(append([]string{}, s.ukeys[off:]...), s.ukeys[:off]...)
 	nv := s.ch.Int("victims", 1, 3)
-	var vs []string
-	for i := 0; i < nv; i++ {
-		k := s.ukeys[s.ch.Int("victim", 0, len(s.ukeys)-1)]
-		if !victims[k] {
-			victims[k] = true
-			vs = append(vs, k)
-		}
+	if nv > len(rot)-4 {
+		nv = 1
 	}
-	// old segment: the victims' first puts, then filler until it is sealed
+	vs := rot[:nv]
+	na := 6
+	if na > len(rot)-nv-2 {
+		na = (len(rot) - nv) / 2
+	}
+	aKeys, bKeys := rot[nv:nv+na], rot[nv+na:]
+	// old segment: the victims' first puts, then distinct filler keys written once
 	for _, k := range vs {
 		if err := s.put(k, core.PickInt(s.ch, "victim_vlen", []int{1, 20, 60, 120})); err != nil {
 			return err
 		}
 	}
 	if core.Pct(s.ch, "seal_old", 85) {
-		if err := s.fillUntilRollover(victims, 30); err != nil {
+		if err := s.fillUntilRollover(aKeys, []int{60, 120, 300}, len(aKeys)); err != nil {
+			return err
+		}
+		if err := s.fillUntilRollover(bKeys, []int{120, 300}, 8); err != nil {
 			return err
 		}
 	}
-	// newer segment: overwrite and/or delete the victims, churn on one hot key
+	late := core.Pct(s.ch, "late_delete", 40)
+	if late {
+		s.victims = vs
+		s.st.Count("hazard_prefixes_late_delete", 1)
+	}
+	// newer segment: overwrite and/or delete the victims
 	for _, k := range vs {
+		if late {
+			break
+		}
 		if core.Pct(s.ch, "victim_overwrite", 60) {
 			if err := s.put(k, core.PickInt(s.ch, "victim_vlen2", []int{0, 5, 60})); err != nil {
 				return err
@@ -422,16 +449,30 @@ func (s *fsess) hazardPrefill() error {
 			}
 		}
 	}
-	hot := s.ukeys[s.ch.Int("churnkey", 0, len(s.ukeys)-1)]
-	if !victims[hot] {
+	// churn on keys that do not live in the old segment
+	churn := func(label string) error {
+		hot := bKeys[s.ch.Int(label, 0, len(bKeys)-1)]
 		for i, n := 0, s.ch.Int("churn_n", 0, 8); i < n; i++ {
 			if err := s.put(hot, core.PickInt(s.ch, "churn_vlen", []int{5, 20, 60})); err != nil {
 				return err
 			}
 		}
+		return nil
 	}
-	if core.Pct(s.ch, "seal_new", 70) {
-		if err := s.fillUntilRollover(victims, 30); err != nil {
+	if err := churn("churnkey"); err != nil {
+		return err
+	}
+	if late {
+		// two fragmented newer segments, the second one still current when Compact is called:
+		// both get picked on their own merits, the old segment with the victims does not
+		if err := s.fillUntilRollover(bKeys, []int{20, 60, 120}, 30); err != nil {
+			return err
+		}
+		if err := churn("churnkey2"); err != nil {
+			return err
+		}
+	} else if core.Pct(s.ch, "seal_new", 70) {
+		if err := s.fillUntilRollover(bKeys, []int{20, 60, 120, 300}, 30); err != nil {
 			return err
 		}
 	}
